@@ -28,7 +28,7 @@ def fx(v):
 
 
 # ------------------------------------------------------------------ instances
-def gen_instance(rng, maxn=6, maxT=5, G=3, family=None):
+def gen_instance(rng, maxn=6, maxT=5, G=3, family=None, p_linked=0.25):
     """abstract geometric instance: nodes on grid points, directed edges, observations on a quarter grid.
     Families: 'random', 'degenerate' (observations exactly on nodes / edges, repeated, collinear; zero-length
     roads), 'street' (a longer bidirectional polyline with side roads)."""
@@ -106,11 +106,28 @@ def gen_instance(rng, maxn=6, maxT=5, G=3, family=None):
             else:
                 path.append((rng.randint(-2, 4 * G + 2) / 4.0, rng.randint(-2, 4 * G + 2) / 4.0))
     linked = []
-    if family in ('street', 'random') and len(edges) >= 4 and rng.random() < 0.25:
+    if family in ('street', 'random') and len(edges) >= 4 and rng.random() < p_linked:
         # linked ("parallel") edges, as connect_parallelroads would produce them: pairs of edges without a common node
         cand = [(e, f) for e in edges for f in edges if len({e[0], e[1], f[0], f[1]}) == 4]
+        if p_linked > 0.5:
+            # linked-edge heavy families: prefer a linked edge that shares its end node with another, unlinked, edge
+            # (an answer for one edge must not leak into the answer for its sibling)
+            sib = [(e, f) for e, f in cand if any(g[1] == e[1] and g[0] != e[0] for g in edges)]
+            cand = sib or cand
         for e, f in rng.sample(cand, min(len(cand), rng.randint(1, 3))):
             linked.append([list(e), list(f)])
+        if p_linked > 0.5 and linked and rng.random() < 0.5:
+            # a trace that runs along a SIBLING of the linked edge (same end node, not linked itself) and then along the
+            # linked-to edge: the map offers the hop e -> f, it does not offer g -> f
+            e, f = linked[0]
+            sibs = [g for g in edges if g[1] == e[1] and g[0] != e[0] and [list(g), f] not in linked]
+            if sibs:
+                g = rng.choice(sibs)
+                mid = lambda a: ((coord[a[0]][0] + coord[a[1]][0]) / 2.0, (coord[a[0]][1] + coord[a[1]][1]) / 2.0)
+                jit = lambda q: (q[0] + rng.randint(-1, 1) / 4.0, q[1] + rng.randint(-1, 1) / 4.0)
+                path = ([jit(mid(g))] + ([jit(tuple(coord[g[1]]))] if rng.random() < 0.7 else []) + [jit(mid(f))]
+                        + ([jit(tuple(coord[f[1]]))] if rng.random() < 0.5 else []))
+                family = family + '+linked-sibling'
     return {'nodes': nodes, 'coord': {k: list(v) for k, v in coord.items()}, 'edges': [list(e) for e in edges],
             'path': [list(p) for p in path], 'family': family, 'G': G, 'linked': linked}
 
